@@ -46,6 +46,12 @@ fn run(c: &Case) -> Verdict {
     }
     // equality is semantic
     ensure!((a == b) == (ma == mb), "eq", "{} == {} is {} but as functions they are {}", ma.show(), mb.show(), a == b, if ma == mb { "equal" } else { "different" });
+    // the same object as both operands: a ^ a is the zero term
+    {
+        let r = lib!("Ecube ^ with the same object on both sides", &a ^ &a);
+        let z = EcubeM { vars: Default::default(), xnor: false };
+        ensure!(EcubeM::of(&r) == z, "xor:alias", "a ^ a with the same object a = {} on both sides gives {}", ma.show(), EcubeM::of(&r).show());
+    }
     // ^ in four forms, ! in two
     let mx = ma.xor(&mb);
     for form in 0..4u8 {
@@ -151,6 +157,13 @@ fn run_soes(c: &SoesCase) -> Verdict {
     if s.is_one() {
         ensure!(want.is_one(), "is_one", "is_one() holds for a Soes denoting {}", want.short());
     }
+    // the same object as both operands: s | s denotes s
+    {
+        let r = lib!("Soes | with the same object on both sides", &s | &s);
+        for m in 0..want.size() {
+            ensure!(r.value(m) == want.get(m), "or:alias", "s | s with the same object s = `{:?}` on both sides has value({}) = {}", c.s, m, r.value(m));
+        }
+    }
     // (how many terms are stored is not part of the property: a constructor may merge duplicates)
     let stored: Vec<EcubeM> = s.cubes().iter().map(EcubeM::of).collect();
     ensure!(tabulate(n, |m| stored.iter().any(|e| e.value(m))) == want, "cubes", "cubes() of the Soes `{:?}` do not denote its function {}", c.s, want.short());
@@ -219,6 +232,47 @@ fn enumerate_soes(t: Tier, shard: usize, nshards: usize, f: &mut dyn FnMut(SoesC
     }
 }
 
+#[derive(Clone, Debug, Hash, Serialize, Deserialize)]
+pub struct SoesWideCase {
+    pub n: usize,
+    pub s: OB,
+    pub ms: Vec<u32>,
+}
+
+fn strategy_soes_wide(_t: Tier) -> BoxedStrategy<SoesWideCase> {
+    prop_oneof![3 => 9usize..=31, 2 => Just(32usize), 1 => 16usize..=18]
+        .prop_flat_map(|n| (arb_ob(n, 6), proptest::collection::vec(any::<u32>(), 8..=16)).prop_map(move |(s, ms)| SoesWideCase { n, s, ms }))
+        .boxed()
+}
+
+fn run_soes_wide(c: &SoesWideCase) -> Verdict {
+    let n = c.n;
+    let mut leaf = Vec::new();
+    c.s.leaf_terms(&mut leaf);
+    let ms = wide_assignments_terms(n, &c.ms, &leaf);
+    let s = lib!(format!("Soes construction over {} variables ({:?})", n, c.s), c.s.build(n));
+    ensure!(s.num_vars() == n, "wide:num_vars", "Soes has {} variables, built for {}", s.num_vars(), n);
+    let stored: Vec<EcubeM> = s.cubes().iter().map(EcubeM::of).collect();
+    for &m in &ms {
+        let want = c.s.eval_at(m);
+        let got = lib!("Soes::value", s.value(m as usize));
+        ensure!(got == want, "wide:value", "Soes `{:?}` over {} variables: value({:#x}) = {} but the OR of its terms is {}", c.s, n, m, got, want);
+        let by_terms = stored.iter().any(|e| e.value(m));
+        ensure!(by_terms == want, "wide:cubes", "Soes `{:?}` over {} variables: cubes() evaluate to {} on {:#x}, expected {}", c.s, n, by_terms, m, want);
+    }
+    for e in &stored {
+        ensure!(e.vars.iter().all(|v| *v < n), "wide:var-range", "Soes `{:?}`: a stored term has a variable >= {}", c.s, n);
+    }
+    if s.is_zero() {
+        ensure!(ms.iter().all(|m| !c.s.eval_at(*m)), "wide:is_zero", "is_zero() holds for the Soes `{:?}` which is not constant zero", c.s);
+    }
+    if s.is_one() {
+        ensure!(ms.iter().all(|m| c.s.eval_at(*m)), "wide:is_one", "is_one() holds for the Soes `{:?}` which is not constant one", c.s);
+    }
+    let hi = leaf.iter().any(|t| t.vars.iter().any(|v| *v >= 16));
+    pass(leaf.len() >= 2 && hi, vec![format!("n:{}", if n == 32 { "32" } else if n > 16 { "17-31" } else { "9-16" })])
+}
+
 pub fn def() -> PropDef {
     PropDef {
         id: "C13",
@@ -227,6 +281,7 @@ pub fn def() -> PropDef {
         subs: vec![
             Box::new(Sub { name: "ecube", rule: "see property rule", strategy, cases: (300_000, 4_000_000), exhaustive: Some(enumerate), exhaustive_note: "all ordered pairs of exclusive cubes, all assignments, n<=4 (quick) / n<=5 (thorough)", run }),
             Box::new(Sub { name: "all", rule: "enumeration", strategy: strategy_all, cases: (0, 0), exhaustive: Some(enumerate_all), exhaustive_note: "n in 0..=10 (quick) / 0..=14 (thorough)", run: run_all }),
+            Box::new(Sub { name: "soes-wide", rule: "n in 9..=32 (32 and 16..18 over-represented): Soes descriptions as in `soes`; value(m) and the OR of cubes() read back must equal the OR of the described terms on generated 32-bit assignments, the constant / alternating ones and, per term, an assignment and its neighbour with one variable of the term flipped; no variable >= n; is_zero/is_one only if every sampled value agrees. Non-trivial = >= 2 terms and a variable >= 16.", strategy: strategy_soes_wide, cases: (60_000, 1_000_000), exhaustive: None, exhaustive_note: "", run: run_soes_wide }),
             Box::new(Sub { name: "soes", rule: "see property rule", strategy: strategy_soes, cases: (200_000, 2_000_000), exhaustive: Some(enumerate_soes), exhaustive_note: "all term lists of length <= 2 over n<=3 (quick); length <= 3 over n<=4 plus strided 4-term lists (thorough)", run: run_soes }),
         ],
     }
